@@ -11,6 +11,10 @@ CHECKS = {
     "C01": ("harness.checks.core_props", "C01"),
     "C02": ("harness.checks.core_props", "C02"),
     "C03": ("harness.checks.core_props", "C03"),
+    "C05": ("harness.checks.klass_props", "C05"),
+    "C07": ("harness.checks.klass_props", "C07"),
+    "C08": ("harness.checks.klass_props", "C08"),
+    "C09": ("harness.checks.klass_props", "C09"),
 }
 
 
